@@ -84,7 +84,7 @@ NEAR_MISS = [
     "forward fn a(i: int)->int;\nforward fn b(i: int)->int;\nfn c(i: int)->int{ a(i) }\nfn a(i: int)->int{ b(i) }\nlet x = c(1);\nfn b(i: int)->int{ i }",
     "forward fn pick(x: int)->int;\nforward fn pick(x: str)->int;\nfn use_int()->int{ pick(1) }\nfn pick(x: str)->int{ x.len() }\nlet r = use_int();\nfn pick(x: int)->int{ x }",
     "let k = (i: int)->{ i % 3 };\nlet eq_ = k.to_eq();\nlet r = eq_(3, 6);",
-    "let k = (i: int)->{ i % 3 };\nlet cmp_ = k.to_cmp();\nlet r = cmp_("a", "b");",
+    "let k = (i: int)->{ i % 3 };\nlet cmp_ = k.to_cmp();\nlet r = cmp_('a', 'b');",
     "struct P(x: int)\nfn mk()->P{ P(7) }\nfn host()->str{ struct P(x: str)  let xs = [P('a'), mk()]; xs[1]::x }\nlet w = host();",
     "struct P(x: int)\nfn mk()->P{ P(7) }\nfn host()->str{ struct P(x: str)  fn first(p: P)->str{ p::x }  first(mk()) }\nlet w = host();",
     "let x = add{int, $}(1);", "let x = add{$, $, $}(1, 2);", "fn foo(x: Sequence<int>)->int{ x.len() }\nlet a = foo{Sequence<$>}([1, 2]);",
